@@ -353,6 +353,9 @@ func c05ConfigEnum(thorough bool) mc.Enum {
 						mp = 1 << 45
 					}
 					msg := storagetypes.NewMsgPostFile(u, files[i].merkle, f.size, 0, 0, mp, "{}")
+					if f.prover == "nobody@short" { // a 3-byte Merkle root (the field's length is not validated); nobody can prove it
+						msg.Merkle = []byte{1, 2, byte(i)}
+					}
 					if !f.plan {
 						msg.Expires = h + 20_000
 					}
@@ -360,6 +363,9 @@ func c05ConfigEnum(thorough bool) mc.Enum {
 						continue
 					}
 					posted++
+					if f.prover == "nobody@short" {
+						continue
+					}
 					if f.prover == "P1^x2" { // P1 signs with the capital spelling of its address and proves twice
 						up := strings.ToUpper(w.A("P1").Bech)
 						item, hl := files[i].proofFor(0)
@@ -400,8 +406,14 @@ func c05ConfigEnum(thorough bool) mc.Enum {
 			return
 		}
 		for _, sz := range c05CfgSizes {
-			for _, p := range []string{"P1", "P2", "P1+P2", "P1^x2", "P1@2^45"} {
+			for _, p := range []string{"P1", "P2", "P1+P2", "P1^x2", "P1@2^45", "nobody@short"} {
 				for _, plan := range []bool{false, true} {
+					if p == "nobody@short" {
+						if sz == c05CfgSizes[1] && !plan {
+							rec(append(append([]fc{}, cur...), fc{1000, p, false}))
+						}
+						continue
+					}
 					if p == "P1@2^45" { // size 1 only (the product must fit), pay-once
 						if sz == c05CfgSizes[0] && !plan {
 							rec(append(append([]fc{}, cur...), fc{1, p, false}))
